@@ -8,6 +8,8 @@ CONSTANTS
   MaxClean = @MC@
   MaxSkew = @SK@
   Dev = @DEV@
+  Cap = @CAP@
+  MaxForeign = @MF@
 INVARIANTS @INV@
 CHECK_DEADLOCK FALSE
 VIEW View
